@@ -39,6 +39,7 @@ impl Out {
         }
     }
     fn script(&mut self, c: &ScriptCase) {
+        watchdog::enter(&c.encode());
         writeln!(self.cases, "{}", c.encode()).unwrap();
         writeln!(self.imp, "{}", c.run()).unwrap();
         writeln!(self.tags, "{}", c.tag.replace('\n', " ")).unwrap();
@@ -52,6 +53,7 @@ impl Out {
     /// by `Display` (what --format / --override keep of the untouched records) runs the same way —
     /// same calls, same waits, same verdict (line numbers may move)
     fn script_fmt(&mut self, c: &ScriptCase, pid: &str) {
+        watchdog::enter(&c.encode());
         writeln!(self.cases, "{}", c.encode()).unwrap();
         let a = c.run();
         writeln!(self.imp, "{}", a).unwrap();
@@ -95,6 +97,7 @@ impl Out {
     }
     /// a `fmt` case; the harness's own metamorphic oracle verdict goes to expect.txt as `!msg`
     fn fmt(&mut self, text: &str, tag: &str) {
+        watchdog::enter(&fmtop::encode_fmt_case(text));
         writeln!(self.cases, "{}", fmtop::encode_fmt_case(text)).unwrap();
         let (a, oracle) = fmtop::run_fmt(text);
         writeln!(self.imp, "{}", a).unwrap();
@@ -106,6 +109,7 @@ impl Out {
         self.n += 1;
     }
     fn include(&mut self, tree: &treeop::Tree, tag: &str) {
+        watchdog::enter(&treeop::encode_include_case(tree));
         writeln!(self.cases, "{}", treeop::encode_include_case(tree)).unwrap();
         writeln!(self.imp, "{}", treeop::run_include(tree)).unwrap();
         writeln!(self.tags, "{}", tag).unwrap();
@@ -113,6 +117,7 @@ impl Out {
         self.n += 1;
     }
     fn update(&mut self, c: &treeop::UpdateCase) {
+        watchdog::enter(&c.encode());
         writeln!(self.cases, "{}", c.encode()).unwrap();
         let (a, oracle) = c.run();
         writeln!(self.imp, "{}", a).unwrap();
@@ -143,6 +148,7 @@ impl Out {
         self.n += 1;
     }
     fn frame(&mut self, c: &frameop::FrameCase) {
+        watchdog::enter(&c.encode());
         writeln!(self.cases, "{}", c.encode()).unwrap();
         writeln!(self.imp, "{}", c.run()).unwrap();
         writeln!(self.tags, "{}", c.tag).unwrap();
@@ -151,6 +157,7 @@ impl Out {
     }
     /// a `parse` case; `expect` = what the author of the text intended ("-" = no expectation)
     fn parse(&mut self, strict: bool, text: &str, tag: &str, expect: &str) {
+        watchdog::enter(&parseop::encode_parse_case(strict, text));
         writeln!(self.cases, "{}", parseop::encode_parse_case(strict, text)).unwrap();
         writeln!(self.imp, "{}", parseop::run_parse(strict, text)).unwrap();
         writeln!(self.tags, "{}", tag.replace('\n', " ")).unwrap();
@@ -336,6 +343,7 @@ fn gen_profile(profile: &str, seed: u64, n: usize, thorough: bool, out: &mut Out
         }
         "c17lib" => {
             for i in 0..n {
+                watchdog::enter(&format!("libmon (library run_parallel, case {} of seed {}: regenerate with the same seed)", i, seed));
                 let c = libpar::gen_libpar(&mut r, i);
                 out.libpar(&c);
                 if i % 10 == 0 {
@@ -377,6 +385,7 @@ fn gen_profile(profile: &str, seed: u64, n: usize, thorough: bool, out: &mut Out
             }
             // several runners alive at once: distinct directories, stable, existing, removed on drop
             for k in 2..6 {
+                watchdog::enter(&format!("testdir {}", k));
                 writeln!(out.cases, "testdir {}", k).unwrap();
                 writeln!(out.imp, "{}", script::run_testdir_probe(k)).unwrap();
                 writeln!(out.tags, "c13 testdir").unwrap();
@@ -533,6 +542,45 @@ fn gen_profile(profile: &str, seed: u64, n: usize, thorough: bool, out: &mut Out
     }
 }
 
+/// A case that does not come back is an answer too: the main thread announces every case before it
+/// runs it; if one is still running after `LIMIT_S` seconds the watchdog writes it to `<outdir>/hang.txt`
+/// and ends the process with status 3 (the orchestrator turns that into a violation with this input).
+mod watchdog {
+    use std::sync::atomic::{AtomicU64, Ordering};
+    use std::sync::Mutex;
+    pub static CASE: Mutex<String> = Mutex::new(String::new());
+    pub static SERIAL: AtomicU64 = AtomicU64::new(0);
+    pub const LIMIT_S: u64 = 90;
+
+    pub fn enter(line: &str) {
+        if let Ok(mut g) = CASE.lock() {
+            g.clear();
+            g.push_str(line);
+        }
+        SERIAL.fetch_add(1, Ordering::Relaxed);
+    }
+
+    pub fn start(outdir: String) {
+        let _ = std::fs::remove_file(format!("{outdir}/hang.txt"));
+        std::thread::spawn(move || {
+            let mut last = 0;
+            let mut since = std::time::Instant::now();
+            loop {
+                std::thread::sleep(std::time::Duration::from_millis(500));
+                let cur = SERIAL.load(Ordering::Relaxed);
+                if cur != last {
+                    last = cur;
+                    since = std::time::Instant::now();
+                } else if cur > 0 && since.elapsed().as_secs() >= LIMIT_S {
+                    let case = CASE.lock().map(|g| g.clone()).unwrap_or_default();
+                    let _ = std::fs::write(format!("{outdir}/hang.txt"), case);
+                    std::process::exit(3);
+                }
+            }
+        });
+    }
+}
+
 fn main() {
     // panics inside the code under test are outcomes, keep stderr quiet
     std::panic::set_hook(Box::new(|_| {}));
@@ -545,6 +593,7 @@ fn main() {
             let n: usize = args[4].parse().unwrap();
             let thorough = args[5] == "thorough";
             let mut out = Out::new(&args[6]);
+            watchdog::start(args[6].clone());
             gen_profile(profile, seed, n, thorough, &mut out);
             println!("{}", out.n);
         }
@@ -573,8 +622,79 @@ fn replay_line(line: &str) -> String {
         // the recorded event log is the replay (the tag names the seeds that regenerate the run)
         "libmon" => "accept".into(),
         "libname" => format!("name {}", libpar::replay_name(&enc::unhx(t[1]), t[2].parse().unwrap_or(0))),
+        "include" => {
+            let mut i = 1;
+            let tree = decode_tree(&t, &mut i);
+            treeop::run_include(&tree)
+        }
+        "update" => {
+            use enc::unhx;
+            let mut i = 1;
+            let strict_cols = t[i] == "1";
+            let sep = unhx(t[i + 1]);
+            let threshold: usize = t[i + 2].parse().unwrap();
+            let nl: usize = t[i + 3].parse().unwrap();
+            i += 4;
+            let labels: Vec<String> = (0..nl).map(|k| unhx(t[i + k])).collect();
+            i += nl;
+            let tree = decode_tree(&t, &mut i);
+            // the two regex tables are recomputed by the run, not trusted
+            let n: usize = t[i].parse().unwrap();
+            i += 1 + 2 * n;
+            let n: usize = t[i].parse().unwrap();
+            i += 1 + 3 * n;
+            let mut next = || {
+                let v = t[i];
+                i += 1;
+                v
+            };
+            let db = decode_db(&mut next);
+            assert_eq!(next(), "K");
+            let crash_at = next().parse::<usize>().ok();
+            let c = treeop::UpdateCase {
+                strict_cols,
+                sep,
+                threshold,
+                labels,
+                tree,
+                db,
+                crash_at,
+                tag: "replay".into(),
+                representable: false,
+                expect_final: None,
+            };
+            c.run().0
+        }
+        "frame" => {
+            let n: usize = t[1].parse().unwrap();
+            let mut i = 2;
+            let mut steps = vec![];
+            for _ in 0..n {
+                let sql = enc::unhx(t[i]);
+                let kind = t[i + 1].to_string();
+                let nc: usize = t[i + 2].parse().unwrap();
+                let chunks = (0..nc).map(|k| enc::unhxb(t[i + 3 + k])).collect();
+                i += 3 + nc;
+                steps.push(frameop::Step { sql, kind, chunks });
+            }
+            frameop::FrameCase { steps, tag: "replay".into() }.run()
+        }
         _ => "unknown-op".into(),
     }
+}
+
+/// inverse of `Tree::encode`
+fn decode_tree(t: &[&str], i: &mut usize) -> treeop::Tree {
+    let n: usize = t[*i].parse().unwrap();
+    *i += 1;
+    let mut files = vec![];
+    for _ in 0..n {
+        files.push((enc::unhx(t[*i]), enc::unhx(t[*i + 1])));
+        *i += 2;
+    }
+    let root = enc::unhx(t[*i]);
+    *i += 1;
+    treeop::Tree { files, root }
 }
 
 /// inverse of `ScriptCase::encode` (tables are recomputed, not trusted)
@@ -626,6 +746,14 @@ fn decode_script(t: &[&str]) -> ScriptCase {
         next();
         next();
     }
+    c.db = decode_db(&mut next);
+    c
+}
+
+/// inverse of `DbScript::encode`, starting at the `db` token
+fn decode_db<'a>(next: &mut dyn FnMut() -> &'a str) -> mock::DbScript {
+    use enc::unhx;
+    use mock::*;
     assert_eq!(next(), "db");
     let mut db = DbScript::default();
     db.engine = unhx(next());
@@ -669,18 +797,17 @@ fn decode_script(t: &[&str]) -> ScriptCase {
     for _ in 0..n {
         let sql = unhx(next());
         let na: usize = next().parse().unwrap();
-        let ans = (0..na).map(|_| dec_ans(&mut next)).collect();
+        let ans = (0..na).map(|_| dec_ans(next)).collect();
         db.rules.push((sql, ans));
     }
-    db.default = dec_ans(&mut next);
+    db.default = dec_ans(next);
     let n: usize = next().parse().unwrap();
     for _ in 0..n {
         let cmd = unhx(next());
         let na: usize = next().parse().unwrap();
-        let ans = (0..na).map(|_| dec_cmdans(&mut next)).collect();
+        let ans = (0..na).map(|_| dec_cmdans(next)).collect();
         db.cmd_rules.push((cmd, ans));
     }
-    db.cmd_default = dec_cmdans(&mut next);
-    c.db = db;
-    c
+    db.cmd_default = dec_cmdans(next);
+    db
 }
